@@ -89,6 +89,7 @@ type rootsScen struct {
 	auth           bool
 	full           bool
 	fgn            foreign
+	answers        bool // illegal request: the host answers it as if it were fine
 }
 
 type rootsSt struct {
@@ -124,6 +125,29 @@ func (w *world) rootsScenarios() []rootsScen {
 		sc.auth = w.pricesByContractHost(sc.prices)
 		s = append(s, sc)
 	}
+	// illegal ranges against a host that answers as if the request were fine (the
+	// invalid-* scenarios above are the same requests against a host that rejects them)
+	for i, q := range []struct {
+		n      string
+		secs   int
+		off, l uint64
+	}{
+		{"empty-contract-1-root", 0, 0, 1}, {"empty-contract-3-roots", 0, 0, 3}, {"empty-contract-offset-2", 0, 2, 2},
+		{"empty-contract-zero-length", 0, 0, 0},
+		{"beyond-contract", 6, 4, 3}, {"starts-at-end", 6, 6, 1}, {"starts-beyond-end", 6, 7, 1}, {"one-more-than-all", 6, 0, 7},
+		{"zero-length", 6, 1, 0}, {"zero-length-at-end", 6, 6, 0}, {"huge-offset", 6, 1 << 62, 1}, {"huge-length", 6, 0, 1 << 62},
+	} {
+		sc := mk("illegal-answered/"+q.n, 150+byte(i), q.secs, rich, q.off, q.l, false)
+		sc.answers = true
+		s = append(s, sc)
+	}
+	// more roots than one batch may carry, from a contract that is large enough
+	big := mk("illegal-answered/oversized-batch", 170, 4, rich, 0, proto4.MaxSectorBatchSize+1, false)
+	big.contract.Revision.Filesize = (proto4.MaxSectorBatchSize + 10) * sectorSize
+	big.contract.Revision.Capacity = big.contract.Revision.Filesize
+	w.sign(&big.contract.Revision)
+	big.answers = true
+	s = append(s, big)
 	return s
 }
 
@@ -133,6 +157,12 @@ func (sc *rootsScen) valid() bool {
 }
 
 func (w *world) rootsCorrs(sc *rootsScen) []corr {
+	if sc.answers {
+		return []corr{
+			{name: "host-answers/arbitrary-roots-empty-proof", msg: 9, typed: func(any) {}},
+			{name: "host-answers/available-roots-and-their-proof", msg: 9, typed: func(any) {}},
+		}
+	}
 	if !sc.valid() || sc.fgn != "" {
 		return []corr{honestCorr}
 	}
@@ -201,6 +231,24 @@ func (w *world) runRoots(sc *rootsScen, c corr) *result {
 			return
 		}
 		local, _, e := proto4.ReviseForSectorRoots(old, req.Prices, req.Length)
+		if sc.answers && e == nil {
+			// a host that does not reject the illegal range: the right number of roots, a
+			// proof as good as can be had, and a valid signature over the renter's revision
+			n := uint64(len(sc.roots))
+			resp := proto4.RPCSectorRootsResponse{HostSignature: w.hk.SignHash(w.cs.ContractSigHash(local))}
+			for i := uint64(0); i < min(req.Length, proto4.MaxSectorBatchSize+1); i++ {
+				if j := req.Offset + i; j >= req.Offset && j < n && c.name != "host-answers/arbitrary-roots-empty-proof" {
+					resp.Roots = append(resp.Roots, sc.roots[j])
+				} else {
+					resp.Roots = append(resp.Roots, types.HashBytes([]byte{'x', byte(i), byte(i >> 8)}))
+				}
+			}
+			if c.name != "host-answers/arbitrary-roots-empty-proof" && req.Offset < n {
+				resp.Proof = proto4.BuildSectorRootsProof(sc.roots, req.Offset, min(n, max(req.Offset+1, req.Offset+req.Length)))
+			}
+			x.send(s, encode(&resp))
+			return
+		}
 		if e != nil || req.Offset+req.Length > uint64(len(sc.roots)) {
 			x.note("host cannot serve: %v", e)
 			x.send(s, encode(&proto4.RPCError{Code: proto4.ErrorCodeBadRequest, Description: "no"}))
@@ -544,6 +592,8 @@ func (w *world) freeScenarios() []freeScen {
 		mk("invalid-index-out-of-range", 48, 5, rich, []uint64{1, 5}, false),
 		mk("invalid-index-far-out-of-range", 49, 5, rich, []uint64{1 << 40}, false),
 		mk("invalid-more-indices-than-sectors", 50, 2, rich, []uint64{0, 1, 2, 3}, false),
+		mk("invalid-index-on-empty-contract", 55, 0, rich, []uint64{0}, false),
+		mk("invalid-index-equal-to-sector-count", 56, 5, rich, []uint64{5}, false),
 	}
 	for i, f := range []foreign{"a", "b", "c", "d"} {
 		sc := mk(foreignNames[f], 51+byte(i), 6, rich, []uint64{1, 3}, false)
